@@ -1771,3 +1771,10 @@ M('c05-twin-cursor-helper', 'C05', 'silent',
 M('c16-twin-date-absent-by-get', 'C16', 'silent',
   (HD, '''        if 'date' not in envelope.headers:''',
    '''        if envelope.headers.get('Date') is None:''', 1))
+# ---- C11 N8
+M('c11-any-three-digits-are-a-code', 'C11', 'fire:N8',
+  (IOF, '''reply_line_pattern = re.compile(br'(([1-5]\\d\\d)([ \\t-])(.*?))\\r?\\n')''',
+   '''reply_line_pattern = re.compile(br'((\\d\\d\\d)([ \\t-])(.*?))\\r?\\n')''', 1))
+M('c11-twin-code-class-as-range-list', 'C11', 'silent',
+  (IOF, '''reply_line_pattern = re.compile(br'(([1-5]\\d\\d)([ \\t-])(.*?))\\r?\\n')''',
+   '''reply_line_pattern = re.compile(br'(([12345][0-9][0-9])([ \\t-])(.*?))\\r?\\n')''', 1))
